@@ -85,7 +85,15 @@ if m is not None:
 else:
     ck.inconclusive.append('vacuous: Greater is never produced')
 
+# ------------------------------------------------------------------ P1: find_path
+exec(open(os.path.join(os.path.dirname(os.path.abspath(__file__)), 'c18_paths.py')).read())
+
 for v in ck.violations:
+    if v['witness'].get('graph_call') == 'find_path':
+        rep = Replay.call({**v['witness'], 'op': 'graph_find_path'})
+        v['native'] = rep
+        v['replayed'] = rep.get('violates')
+        continue
     rep = Replay.call({'op': 'dijkstra_cmp', **v['witness']})
     v['native'] = rep
     v['replayed'] = rep.get('violates')
